@@ -55,6 +55,7 @@ TIERS = {
         ('pos-u3', dict(MaxDepth=2, MaxLen=4, InitLen=3, UniverseName='u3', GridName='full', Groups={'pos'})),
         ('vals-u7', dict(MaxDepth=2, MaxLen=4, InitLen=3, UniverseName='u7', GridName='full',
                          Groups={'range', 'iter', 'agg', 'cat'})),
+        ('agg-u9', dict(MaxDepth=2, MaxLen=4, InitLen=2, UniverseName='u9', GridName='full', Groups={'agg'})),
         ('comp-u4-d2', dict(MaxDepth=3, MaxLen=4, InitLen=2, UniverseName='u4', GridName='small', Groups=ALL_GROUPS)),
     ],
     'thorough': [
@@ -65,7 +66,7 @@ TIERS = {
         ('comp-u3-d3', dict(MaxDepth=4, MaxLen=3, InitLen=1, UniverseName='u3', GridName='small', Groups=ALL_GROUPS)),
     ],
 }
-MIN_DISTINCT = {'quick': 100, 'thorough': 100}
+MIN_DISTINCT = {'quick': 50, 'thorough': 50}
 
 
 # ---------------------------------------------------------------------------------------
@@ -409,9 +410,6 @@ def second_oracle(src, action, args, dst):
         a, b = tok_int(args[0], n), tok_int(args[1], n)
         if a is not None and b is not None:
             want = [s[i - 1] for i in range(1, n + 1) if a <= i < a + b]
-    elif action == 'Count':
-        want = None if (dst['k'] == 'seq' and len(dst['s']) == 1 and dst['s'][0]['q'] == (n, 1)) else 'count'
-        return None if want is None else f'count({n}) -> {dst}'
     if want is None:
         return None
     if dst['k'] != 'seq' or list(dst['s']) != want:
@@ -423,6 +421,8 @@ def second_oracle(src, action, args, dst):
 # workers (globals are inherited by fork)
 
 _G: dict = {}
+NUMT = ('int', 'dec', 'flt', 'dbl')
+NUM_TOKS = {'1', '2', '2.5', '1e0', '0.0', 'NaN'}
 _VAR = re.compile(r'\$([xyi])\d+')
 
 
@@ -440,6 +440,9 @@ def features(src, action, args, dst, outcome, version, spelling, level):
                 src_len=len(items), src_types=type_sig(items),
                 has_bool=any(x['t'] == 'bool' for x in items) or 'bool' in argtypes
                 or any(a == 'true()' for a in args),
+                bool_num_mix=(any(x['t'] == 'bool' for x in items) and
+                              (any(x['t'] in NUMT for x in items) or any(a in NUM_TOKS for a in args if isinstance(a, str))))
+                or (any(a == 'true()' for a in args) and any(x['t'] in NUMT for x in items)),
                 has_flt=any(x['t'] == 'flt' for x in items) or 'flt' in argtypes,
                 has_nan=any(x['k'] == 'nan' for x in items),
                 has_str=any(x['t'] == 'str' for x in items),
@@ -468,10 +471,14 @@ def worker(job):
             oracle.append(msg)
         edge_ok = True
         allowed = ACTION_VERSIONS.get(action, ALLV)
+        rot = zlib.crc32(f'{action}{args}{n}'.encode())
         for kind, text, sfx, versions in spell[s]:
             vs = [v for v in VERSIONS if v in allowed and v in versions]
             if not vs:
                 continue
+            # the secondary spellings are evaluated by one parser version (rotating), the primary by all
+            if kind in ('ctor', 'nested-samevar') or (kind == 'lit' and level[s] > 1 and len(spell[s]) > 1):
+                vs = [vs[rot % len(vs)]]
             if kind.startswith('nested'):
                 # usable only if it really evaluates to the source value (prefix hygiene, re-checked)
                 okn = nested_ok.get(text)
@@ -637,7 +644,7 @@ def run(chk: core.Check) -> None:
     cfgs = TIERS[chk.tier]
     chk.coverage['configs'] = [dict(name=n, **{k: (sorted(v) if isinstance(v, (set, frozenset)) else v) for k, v in c.items()})
                                for n, c in cfgs]
-    nested_k = 2
+    nested_k = 1 if chk.tier == 'quick' else 2
 
     # the TLC runs are independent: start them together, replay each as it is ready
     results: dict = {}
